@@ -8,14 +8,17 @@ import liftgen
 import srdebug
 from props import common
 
-MODULE = "Rspirv.Props.C18Content"
+MODULE = "Rspirv.Props.C18Globals"
 P = "Rspirv.Props.C18."
 THEOREMS = [P + n for n in ("liftFields_names", "liftField_plain", "liftFields_req", "walk_sound", "table_ok", "C18_table",
                             "C18_header", "liftWith_wrongOpcode", "liftConstant_wrongOpcode", "liftGlobals_counts",
                             "liftBlockInsts_counts", "liftBlocks_counts", "liftFunctions_counts", "C18_structure")] + \
            ["Rspirv.Props.C18Content." + n for n in ("liftWith_congr", "liftTerminator_congr", "liftBlockInsts_step",
                                                      "liftBlockInsts_content", "BlocksSpec_congr", "liftBlocks_content",
-                                                     "FunctionsSpec_congr", "liftFunctions_content", "C18_content")]
+                                                     "FunctionsSpec_congr", "liftFunctions_content", "C18_content")] + \
+           ["Rspirv.Props.C18Globals." + n for n in ("liftGlobals_step", "liftGlobals_append", "liftGlobals_split", "gstep_ok",
+                                                     "gstep_inv", "gstep_mono", "liftGlobals_inv", "C18_type_at",
+                                                     "C18_const_at", "C18_reference")]
 NEEDS = ("header", "core", "glsl", "opencl", "traversals", "decode", "operand_enum", "asm_arms", "parse_operand", "operands",
          "operand_reflect", "disas_operand", "lift")
 ATOM = re.compile(r"[tmj]\d+|s[0-9a-f]*|\d+|NaN")
@@ -129,7 +132,7 @@ def run(ctx):
         hok, herr = C.build_harness(ctx, bins=("impl",))
         have = C.need(ctx, *NEEDS)
         failing = C.prove(ctx, MODULE, THEOREMS, extra_targets=["driver"],
-                          files=["Rspirv/Props/C18.lean", "Rspirv/Props/C18Content.lean", "Rspirv/Model/Lift.lean", "Rspirv/Instances.lean"]) if have else []
+                          files=["Rspirv/Props/C18.lean", "Rspirv/Props/C18Content.lean", "Rspirv/Props/C18Globals.lean", "Rspirv/Model/Lift.lean", "Rspirv/Instances.lean"]) if have else []
     for n, e in failing:
         ctx.issue(f"theorem:{n}", f"Lean obligation no longer checks: {e['msg'][:300]}", witness=e)
     if not hok:
